@@ -87,6 +87,7 @@ class Agent:
         v3_resp_forms=None,
         readonly=(),
         any_context=False,
+        max_size=65507,
     ):
         self.db = dict(db or {})
         self._keys = sorted(self.db)
@@ -102,6 +103,9 @@ class Agent:
         self.v3_resp_forms = v3_resp_forms
         self.readonly = set(readonly)
         self.any_context = any_context
+        # msgMaxSize the agent announces: the largest message IT can receive
+        # (RFC 3412 6.3); it does not bound what the agent sends
+        self.max_size = max_size
         # adversary plumbing (vf.adversary / the checks): called with the
         # request PDU and the conformant response PDU, returns the response
         # PDU that is actually sent (or None to drop).  The reference agent
@@ -286,7 +290,7 @@ class Agent:
         }
         out = {
             "msg_id": msg["msg_id"],
-            "max_size": 65507,
+            "max_size": self.max_size,
             "flags": level,
             "sec_model": 3,
             "usm": usm,
